@@ -714,13 +714,15 @@ func (c *Connection) processResult(from any, req *incomingRequest, result any, e
 		c.updateInFlight(func(s *inFlightState) {
 			delete(s.incomingByID, req.ID)
 		})
-		if respErr == nil {
-			writeErr := c.write(notDone{req.ctx}, response)
-			if err == nil {
-				err = writeErr
-			}
-		} else {
+		if respErr != nil {
+			// The result cannot be encoded. Answer the call with an internal
+			// error instead of leaving it unanswered.
 			err = c.internalErrorf("%#v returned a malformed result for %q: %w", from, req.Method, respErr)
+			response = &Response{ID: req.ID, Error: err}
+		}
+		writeErr := c.write(notDone{req.ctx}, response)
+		if err == nil {
+			err = writeErr
 		}
 	} else { // req is a notification
 		if result != nil {
